@@ -482,7 +482,7 @@ class Body:
         name = self.local_name(l)
         if 1 <= l <= self.arg_count:
             return ("arg", l, name)
-        if name is not None and not expand_named:
+        if name is not None and (not expand_named or (callable(expand_named) and not expand_named(l))):
             return ("var", name, l)
         if depth <= 0 or l in seen:
             return ("tmp", l)
